@@ -6,7 +6,8 @@ EXPLANATION = ("Decides on the MIR of the current tree: every iteration runs the
                "dispatches to every object kind that defines a leak check and visits every entry (K2), the three leak predicates and their "
                "documented panic messages (K3), the writers of the counters the predicates read - Arc ref_cnt, Allocation.is_dropped, channel "
                "msg_cnt, raw allocation registry and alloc/dealloc pairing (K4) - and that lazy statics are destroyed outside the execution "
-               "borrow before the main thread finishes (K5). Whether a schedule-dependent leak is *found* depends on exploration (C01).")
+               "borrow before the main thread finishes (K5). Whether a schedule-dependent leak is *found* depends on exploration (C01)."
+               " The leak scan of an execution is unconditional (K2b); from_std creates the modelled Arc only after its rejecting check (K6); a message refused by the std channel is not counted (Q5); how an allocation is marked released is read off the writers (K3/K4); G0/G1 cross-check leak-scan and reference counting.")
 RULE_TEXT = "rule instances = iteration steps, dispatch arms, predicate functions, counter writers; non-trivial when matched to concrete MIR"
 LEVEL_NOTE = "necessary conditions only"
 
